@@ -285,8 +285,12 @@ def rule_z4(repo):
             ok = True
     res.add('%s :: solve :: verdict' % Z3, ok, "returns str(s.check()) == 'unsat'" if ok else
             'solve no longer returns the comparison of the solver verdict with unsat', f.loc)
+    from ..inline import inlined
+
+    def asks_solver(h):
+        return any((isinstance(n, ast.Call) and call_name(n) == 'solve') or is_name(n, 'check_z3') for n in ast.walk(h.node)) and h.name != 'solve'
     for qual, accept in (('Z3Macro.eval', 'return'), ('Z3Method.apply', 'set_line')):
-        f = repo.func(Z3, qual)
+        f = inlined(repo.func(Z3, qual), asks_solver)[0]       # the question to the solver may sit in a helper of the module
         cfg = cfg_of(f.node)
         if accept == 'return':
             targets = [r for r in cfg.return_nodes() if r.ast.value is not None and
